@@ -488,4 +488,100 @@ theorem maskKvs_step : ∀ (kvs : List (String × Node)) (S : List PSeg → Bool
         rw [if_neg (String.lt_asymm hlt), if_neg (Ne.symm hne), if_neg (Ne.symm hne)]
 end
 
+/-! ### (iii) the full mask has the flattened view of the document -/
+
+/-- every list item anywhere in the tree holds at least one scalar -/
+inductive Node.ItemsHaveScalars : Node → Prop
+  | leaf (v : Scalar) : Node.ItemsHaveScalars (.leaf v)
+  | list {xs : List Node} : (∀ x ∈ xs, 0 < Node.scalarCount x) → (∀ x ∈ xs, Node.ItemsHaveScalars x) →
+      Node.ItemsHaveScalars (.list xs)
+  | cont {kvs : List (String × Node)} : (∀ p ∈ kvs, Node.ItemsHaveScalars p.2) → Node.ItemsHaveScalars (.cont kvs)
+
+/-- the document-level hypothesis of `rebuild_perm` -/
+def ItemsHaveScalars (d : AMap Node) : Prop := (Node.cont d).ItemsHaveScalars
+
+def flattenOpt : Option Node → String → List (String × Scalar)
+  | none, _ => []
+  | some n, p => flattenNode n p
+
+theorem flattenOpt_optList (ys : List Node) (p : String) : flattenOpt (optList ys) p = flattenList ys p 0 := by
+  cases ys <;> simp [optList, flattenOpt, flattenNode, flattenList]
+
+theorem flattenOpt_optCont (ys : AMap Node) (p : String) : flattenOpt (optCont ys) p = flattenKvs ys p := by
+  cases ys <;> simp [optCont, flattenOpt, flattenNode, flattenKvs]
+
+mutual
+theorem flatten_maskNode : ∀ (n : Node) (S : List PSeg → Bool) (p : String), n.ItemsHaveScalars →
+    (∀ q ∈ sp n, S q.1 = true) → flattenOpt (maskNode S n) p = flattenNode n p
+  | .leaf v, S, p, _, h => by
+    have : S [] = true := h ([], v) (by simp [sp])
+    simp [maskNode, this, flattenOpt]
+  | .list xs, S, p, hi, h => by
+    rw [maskNode_list, flattenOpt_optList]
+    simp only [flattenNode]
+    cases hi with
+    | list hc hi => exact flatten_maskList xs 0 S p (fun x hx => ⟨hc x hx, hi x hx⟩) (by simpa [sp] using h)
+  | .cont kvs, S, p, hi, h => by
+    rw [maskNode_cont, flattenOpt_optCont]
+    simp only [flattenNode]
+    cases hi with
+    | cont hi => exact flatten_maskKvs kvs S p hi (by simpa [sp] using h)
+theorem flatten_maskList : ∀ (xs : List Node) (o : Nat) (S : List PSeg → Bool) (p : String),
+    (∀ x ∈ xs, 0 < Node.scalarCount x ∧ x.ItemsHaveScalars) → (∀ q ∈ spList xs o, S q.1 = true) →
+    flattenList (maskList S xs o) p o = flattenList xs p o
+  | [], _, _, _, _, _ => by simp [maskList]
+  | x :: xs, o, S, p, hi, h => by
+    have h1 := flatten_maskNode x (rs S (.idx o)) (toListPath p o) (hi x (List.mem_cons_self ..)).2 (by
+      intro q hq
+      exact h (PSeg.idx o :: q.1, q.2) (by
+        simp only [spList, List.mem_append, List.mem_map]
+        exact Or.inl ⟨q, hq, rfl⟩))
+    have h2 := flatten_maskList xs (o + 1) S p (fun y hy => hi y (List.mem_cons_of_mem _ hy)) (by
+      intro q hq
+      exact h q (by
+        simp only [spList, List.mem_append]
+        exact Or.inr hq))
+    rw [maskList_cons]
+    cases hm : maskNode (rs S (.idx o)) x with
+    | none =>
+      rw [hm] at h1
+      have hlen := flattenNode_length x (toListPath p o)
+      rw [← h1] at hlen
+      have := (hi x (List.mem_cons_self ..)).1
+      simp [flattenOpt] at hlen
+      omega
+    | some z =>
+      rw [hm] at h1
+      simp only [consOpt, flattenList]
+      rw [h2]
+      simp only [flattenOpt] at h1
+      rw [h1]
+theorem flatten_maskKvs : ∀ (kvs : List (String × Node)) (S : List PSeg → Bool) (p : String),
+    (∀ q ∈ kvs, q.2.ItemsHaveScalars) → (∀ q ∈ spKvs kvs, S q.1 = true) →
+    flattenKvs (maskKvs S kvs) p = flattenKvs kvs p
+  | [], _, _, _, _ => by simp [maskKvs]
+  | (k, x) :: r, S, p, hi, h => by
+    have h1 := flatten_maskNode x (rs S (.key k)) (toPath p k) (hi (k, x) (List.mem_cons_self ..)) (by
+      intro q hq
+      exact h (PSeg.key k :: q.1, q.2) (by
+        simp only [spKvs, List.mem_append, List.mem_map]
+        exact Or.inl ⟨q, hq, rfl⟩))
+    have h2 := flatten_maskKvs r S p (fun y hy => hi y (List.mem_cons_of_mem _ hy)) (by
+      intro q hq
+      exact h q (by
+        simp only [spKvs, List.mem_append]
+        exact Or.inr hq))
+    simp only [maskKvs, flattenKvs]
+    cases hm : maskNode (rs S (.key k)) x with
+    | none =>
+      rw [hm] at h1
+      simp only [flattenOpt] at h1
+      simp only [← h1, List.nil_append]
+      exact h2
+    | some z =>
+      rw [hm] at h1
+      simp only [flattenOpt] at h1
+      simp only [flattenKvs, h1, h2]
+end
+
 end Ytk
